@@ -113,7 +113,13 @@ theorem _parse_local_version_eq_model (loc : Option Str) :
     · intro x hx
       simp only [List.mem_map] at hx
       obtain ⟨p, _, rfl⟩ := hx
-      exact local_part p
+      -- x8: the closure is evaluated, not matched against a stated shape (either order of the `isdigit` test)
+      simp only [str_isdigit, pure_ok, ok_bind, truthy_bool, localPart]
+      by_cases h : (!p.isEmpty && p.all isDigit) = true
+      · have hd : isDigitStr p = true := by simpa [isDigitStr] using h
+        simp [h, int_, parseInt, hd, ofLSeg]
+      · have h' : (!p.isEmpty && p.all isDigit) = false := by simpa using h
+        simp [h', str_lower, ofLSeg]
 
 /-- on the non-empty parts the version pattern captures, `localPart` is the scanner's `localSeg` -/
 theorem localPart_eq_localSeg (p : Str) (h : p ≠ []) : localPart p = localSeg p := by
